@@ -62,7 +62,7 @@ class Gen:
         if c == "term":
             return L.term(r.choice([0, 1, 2, 3, 5, 9, 10, 11, 100, -2]))
         if c == "lines":
-            return L.fn(r.choice(["count_lines", "line_number", "count_scans", "total_lines", "count"]))
+            return L.fn(r.choice(["count_lines", "line_number", "count_scans", "total_lines", "count", "count_headers", "count_headers_in_line"]))
         if c == "hdr":
             return self.href(r.choice(strict))
         if c == "var":
@@ -137,9 +137,15 @@ class Gen:
     # ---- anything that can be compared / tested for existence (may be None)
     def anyval(self, d=0):
         r = self.r
-        c = r.choice(["hdr", "hdr", "num", "text", "var"])
+        c = r.choice(["hdr", "hdr", "num", "text", "var", "end", "hname"])
         if c == "hdr":
             return self.href_any()
+        if c == "end":
+            if self.no_headers:
+                return self.num(d)
+            return L.fn("end") if r.random() < 0.5 else L.fn("end", L.term(r.choice([0, 1, 2, 4])))
+        if c == "hname":
+            return self.header_lookup(False)
         if c == "num":
             return self.num(d)
         if c == "text":
@@ -148,6 +154,17 @@ class Gen:
         if vs:
             return L.var(r.choice(vs))
         return self.href_any()
+
+    def header_lookup(self, expected):
+        """header_name(index) / header_index(name), optionally compared with an expected value"""
+        r = self.r
+        if r.random() < 0.5:
+            a = L.term(r.choice([0, 1, 2, 3, 6]))
+            e = L.term(r.choice(["ha", "hb", "a", "1"]))
+        else:
+            a = L.term(r.choice(["ha", "hb", "hc", "a", "zz", "1"]))
+            e = L.term(r.choice([0, 1, 2]))
+        return L.fn(r.choice(["header_name", "header_index"]), a, *([e] if expected else []))
 
     def href_any(self):
         if self.no_headers:
@@ -161,7 +178,7 @@ class Gen:
     def boolean(self, d=0):
         r = self.r
         opts = ["hdr", "hdr", "cmp", "cmp", "cmp", "eq", "eq", "yesno", "exists", "empty", "starts",
-                "between", "between", "in", "equalsfn", "anyall", "first"]
+                "between", "between", "in", "equalsfn", "anyall", "first", "none", "hname"]
         vs = self.numvars + self.txtvars + self.anyvars
         if vs:
             opts += ["var"]
@@ -205,6 +222,10 @@ class Gen:
             return L.fn(k[:-1], self.nonterm(self.href_any()), self.nonterm(self.href_any()))
         if c == "first":
             return L.fn(r.choice(["firstscan", "firstline"]))
+        if c == "none":
+            return L.fn("none")
+        if c == "hname":
+            return self.header_lookup(r.random() < 0.6)
         if c == "exists":
             return L.fn("exists", self.nonterm(self.anyval(d + 1)))
         if c == "empty":
@@ -414,6 +435,8 @@ class Gen:
             else:
                 ln = r.choice([1, 1, 2, 3, 6])
                 s = "".join(r.choice(CH) for _ in range(ln))
+                if r.random() < 0.15:
+                    s += r.choice(["..", "...", "1..3", " .. "])
                 if prev_ref and s[0] not in L.SEPARATORS + ".":
                     s = r.choice(L.SEPARATORS) + s      # a name-like character would extend the reference's name
                 if items and items[-1]["k"] == "text":
@@ -508,6 +531,10 @@ class Gen:
                 cond = self.href_any()
             return L.when(cond, L.fn(r.choice(["fail", "fail", "fail_and_stop"])))
         if c == "bool":
+            if self.AND and not self.used_onmatch and not self.no_headers and r.random() < 0.06:
+                # firstmatch() asks whether the rest of the line matches: the csvpath's one look-ahead, top level only
+                self.used_onmatch = True
+                return L.fn("firstmatch")
             b = self.boolean(0)
             if b["k"] == "term":
                 b = self.href_any()
